@@ -80,7 +80,7 @@ def plan(tier):
     cat = _get_catalogue(tier)
     ntasks = len(cat["tasks"])
     req = ["roundtrip:Mps", "roundtrip:MpDm", "roundtrip:Mpo", "roundtrip:TTNS", "complex", "qn-one", "qn-two",
-           "spill", "enum:python", "gen:2", "history:ioerror-swallowed", "pos:inside-dump", "control"]
+           "spill", "enum:python", "gen:2", "history:ioerror-swallowed", "pos:inside-dump", "control", "long-chain"]
     if cat["strace_available"] and "strace" in cat["enumerators"]:
         req.append("enum:strace")
     # a further generation exists only if the previous one left a directory state not seen before (restart closure)
@@ -406,7 +406,13 @@ def roundtrip_chain(ctx, kind, tmp):
     from renormalizer.utils import EvolveConfig, EvolveMethod
     rng = ctx.rng
     small = kind != "Mps"
-    gm = gen.random_basis_list(rng, nsite=(1, 4) if small else (1, 6), max_dim=24 if small else 400, min_dim=2)
+    if kind == "Mps" and rng.random() < 0.2:
+        # long chain of two-state sites: more than ten sites / bonds (multi-digit keys in the file)
+        gm = gen.random_basis_list(rng, nsite=(10, 12), max_dim=4096, min_dim=2, kinds=["spin", "elec"],
+                                   qn_mode=str(rng.choice(["one", "two"])))
+        ctx.cls("long-chain")
+    else:
+        gm = gen.random_basis_list(rng, nsite=(1, 4) if small else (1, 6), max_dim=24 if small else 400, min_dim=2)
     model = states.model_of(gm)
     qntot = states.pick_sector(rng, gm)
     desc = {"kind": kind, "model": gm.describe(), "sector": qntot.tolist()}
@@ -541,9 +547,12 @@ def tree_basis(rng):
     from renormalizer.model import basis as ba
     mode = str(rng.choice(["none", "one", "two"], p=[0.35, 0.45, 0.2]))
     n = int(rng.integers(2, 7))
+    long_tree = bool(rng.random() < 0.15)
+    if long_tree:
+        n = int(rng.integers(11, 13))       # more than ten nodes: multi-digit keys in the file
     out, desc = [], []
     for i in range(n):
-        r = rng.random()
+        r = 0.0 if long_tree else rng.random()
         if mode == "two":
             sq = [[[0, 0], [1, 0]], [[0, 0], [0, 1]], [[0, 0], [1, 1]]][int(rng.integers(0, 3))]
             out.append(ba.BasisHalfSpin(f"s{i}", sigmaqn=sq))
